@@ -96,7 +96,11 @@ class H(W.Hooks):
                           {"got": got, "want": want, "history": r.history})
 
     def fork_diverged(self, run, detail):
-        self.ctx.violation("c02_copied_dispatcher_not_independent", detail)
+        kind = ("c02_state_changed_by_a_library_component_looking_at_it"
+                if "in the middle of the history" in str(detail.get("when")) else
+                "c02_copied_dispatcher_not_independent" if "copy" in str(detail.get("when")) else
+                "c02_dispatchers_for_the_same_instance_not_independent")
+        self.ctx.violation(kind, detail)
 
     def end(self, run):
         from job_shop_lib.dispatching import Dispatcher
